@@ -65,7 +65,7 @@ theorem ext_part {V : Type} (nx ny : Nat) (hnx : 0 < nx) (regs : Nat → Nat) (v
       by_cases hr : r = regs k
       · subst hr
         simp only [if_true]
-        refine ⟨⟨hk, rfl, ?_, ⟨c, [], rfl, hE⟩, ?_, by simpa using hnd⟩, by omega⟩
+        refine ⟨⟨hk, rfl, ?_, ⟨c, [], rfl, hE, fun c' hc' => absurd hc' List.not_mem_nil⟩, ?_, by simpa using hnd⟩, by omega⟩
         · intro p hp; have := h.seen p hp; omega
         · intro c' hc'
           rw [List.mem_singleton.mp hc']
